@@ -103,6 +103,10 @@ def _dispatch(ex, st, f, args, kwargs, node):
             yield st, V("bool", z3.Not(z3.And(Py.is_obj(box(a)), Py.cls(box(a)) == 7)))
         else:
             yield st, S.mk_bool(True)
+    elif k == "specident" and f.val == "set_add":
+        a = ex.narrow(st, args[0])
+        x = box(args[1])
+        yield st, V("set", z3.If(z3.Contains(a.t, z3.Unit(x)), a.t, z3.Concat(a.t, z3.Unit(x))))
     elif k == "specident" and f.val == "seq_items":
         d = ex.narrow(st, args[0])
         if d.ty in ("list", "tuple"):
@@ -176,6 +180,12 @@ def clause_helper(ex, st, name, args, kwargs, node):
             yield st, f.val[2]
             return
         raise _U("table_key of a non-table function")
+    if name == "same":
+        a, b = args
+        if isinstance(a, V) and isinstance(b, V):
+            yield st, V("bool", box(a) == box(b))
+            return
+        raise _U("same() on non-values")
     if name == "implies":
         yield st, V("bool", z3.Implies(S.truthy(args[0]), S.truthy(args[1])))
         return
